@@ -18,6 +18,15 @@
             disjoint ranges naming unit starts), cu_offset_at_addr at every boundary class, then get_CU_containing or
             get_CU_at of the offset found; with a table that gives nothing, get_CU_containing at every offset of the
             section (the scan a consumer falls back to); .debug_info absent in every tenth case
+  die     : lookups that END IN AN ENTRY, on a C04 forest (abbreviation tables, units of versions 2-5 with trees of entries,
+            string / address / list sections: C04's generator and Spec encoder) + an encoded name table naming entries of the
+            forest + an encoded range table naming its units, one operation history on ONE DWARFInfo:
+            get_DIE_from_refaddr at entry offsets of every unit (and mid-entry, header, negative, beyond-the-end offsets),
+            get_DIE_from_lut_entry, get_pubnames()/get_pubtypes()[name] -> get_DIE_from_lut_entry, address -> aranges -> unit ->
+            get_top_DIE(), interleaved with get_CU_containing / get_CU_at so that the unit cache is in every kind of state;
+            the entry (offset, size, code, tag, attributes with forms and values) is compared with the forest's entry
+            (Props.C13.ref_addr_resolution_exact, name_to_die_exact, addr_to_top_die), with the model, and the model's answer
+            with C04's linear scan (ref_addr_scan_agrees)
 """
 import io, itertools
 from common import run_impl, canon, hx, rnd_uint, rnd_bytes
@@ -28,12 +37,18 @@ RULE = ('ar: sets/tuples from boundary pools (adjacent, unsorted, equal begins, 
         'unit type in both formats), every permutation and subset of unit starts as cache-priming prefix then every offset of the section; '
         'res: range tables absent / without sets / with empty sets only / with disjoint ranges naming unit starts, .debug_info absent in '
         'every tenth case, addresses from every tuple boundary resolved by get_CU_containing or get_CU_at, then every offset of the section; '
+        'die: C04 forests (its generator) with name tables (1-3 sets, repeated names, 90% of the entries naming entries of the forest) and '
+        'disjoint range tables naming unit starts; 25-60 operations per case: refaddr lookups at entry offsets (all units), entry offset+1, '
+        'unit header offsets, -1, size, size+5; lut entries; every name of the table and one absent name; addresses at tuple boundaries; '
+        'shuffled with unit-level lookups; '
         'raw streams: single-byte substitutions, truncations, extensions of valid encodings plus random bytes. '
         'Non-trivial = distinct (request); every ast case decodes at least one header.')
 ASSUMPTIONS = ['io.BytesIO read/seek/tell semantics', 'bisect.bisect_right, list.sort stability, list.insert, dict order',
                'math.ceil(fp/float(ts))*ts equals integer ceil-division below 2**53 (section offsets)',
                "bytes.decode('utf-8') accepts exactly well-formed UTF-8 (Unicode table 3-7)",
-               'DIE decoding behind get_DIE_from_lut_entry is C04; observed here only through die.offset and die.cu',
+               'DIE decoding behind get_DIE_from_lut_entry is C04; observed through die.offset and die.cu in the cu streams, and entry by '
+               'entry (tag, attributes, values) in the die stream, where the model is C04\'s pure parse-on-miss entry model '
+               '(the per-unit DIE cache is C10) behind C13\'s unit cache',
                'a present section descriptor is truthy (non-empty namedtuple), so `if self.debug_x_sec:` is `is not None`',
                'res: address resolution is the composition get_aranges().cu_offset_at_addr(a) ; get_CU_containing/get_CU_at written in the '
                'harness and in Model.Lookup.unitForAddr (the library has no function for it)']
@@ -754,6 +769,233 @@ def run_res(ctx):
             ctx.out.violation('correspondence', 'res', case, got=impl, model=model)
 
 
+# ----------------------------------------------------------------------------------------------- lookups that end in an entry
+def mk_dwarfinfo_die(le, dasz, info, abbrev, secs, pubnames=None, pubtypes=None, aranges=None):
+    """a DWARFInfo over the sections of a C04 forest plus the lookup tables"""
+    from elftools.dwarf.dwarfinfo import DWARFInfo, DwarfConfig, DebugSectionDescriptor
+
+    def d(name, b):
+        if b is None:
+            return None
+        return DebugSectionDescriptor(stream=io.BytesIO(b), name=name, global_offset=0, size=len(b), address=0)
+
+    def sx(k):
+        v = secs.get(k)
+        return None if v is None else bytes.fromhex(v)
+    return DWARFInfo(
+        config=DwarfConfig(little_endian=le, machine_arch='x64', default_address_size=dasz),
+        debug_info_sec=d('.debug_info', info), debug_aranges_sec=d('.debug_aranges', aranges),
+        debug_abbrev_sec=d('.debug_abbrev', abbrev), debug_frame_sec=None, eh_frame_sec=None,
+        debug_str_sec=d('.debug_str', sx('str')), debug_loc_sec=None, debug_ranges_sec=None, debug_line_sec=None,
+        debug_pubtypes_sec=d('.debug_pubtypes', pubtypes), debug_pubnames_sec=d('.debug_pubnames', pubnames),
+        debug_addr_sec=d('.debug_addr', sx('addr')), debug_str_offsets_sec=d('.debug_str_offsets', sx('str_offsets')),
+        debug_line_str_sec=d('.debug_line_str', sx('line_str')), debug_loclists_sec=d('.debug_loclists', sx('loclists')),
+        debug_rnglists_sec=d('.debug_rnglists', sx('rnglists')), debug_sup_sec=None, gnu_debugaltlink_sec=None,
+        debug_types_sec=None)
+
+
+def die_obs(d):
+    """an entry as the driver's dieObsJson: no parent link (an entry reached by offset has no recorded parent)"""
+    return [d.offset, d.size, d.abbrev_code, canon(d.tag), d.has_children,
+            [[canon(a.name), canon(a.form), canon(a.value), canon(a.raw_value), a.offset] for a in d.attributes.values()]]
+
+
+def impl_die(le, dasz, info, abbrev, secs, names, which, ar, ops):
+    """same shape as the driver's handleDie model: every operation on ONE DWARFInfo"""
+    from common import classify_exception
+    from elftools.dwarf.namelut import NameLUTEntry
+    di = mk_dwarfinfo_die(le, dasz, info, abbrev, secs, aranges=ar, **{which: names})
+    try:
+        t = di.get_aranges()
+    except Exception as e:      # noqa: BLE001
+        return {'aranges': {'err': classify_exception(e)}}
+    answers = []
+    for op in ops:
+        k = op[0]
+        if k in ('c', 'a'):
+            answers += answers_for(di, [op])
+            continue
+        if k == 'r':
+            def f():
+                die = di.get_DIE_from_refaddr(op[1])
+                return [cu_canon(die.cu), die_obs(die)]
+        elif k == 'L':
+            def f():
+                die = di.get_DIE_from_lut_entry(NameLUTEntry(cu_ofs=op[1], die_ofs=op[2]))
+                return [cu_canon(die.cu), die_obs(die)]
+        elif k == 'n':
+            def f():
+                lut = di.get_pubnames() if which == 'pubnames' else di.get_pubtypes()
+                if lut is None:
+                    return None
+                die = di.get_DIE_from_lut_entry(lut[bytes.fromhex(op[1]).decode('utf-8')])
+                return [cu_canon(die.cu), die_obs(die)]
+        elif k == 't':
+            def f():
+                off = t.cu_offset_at_addr(op[1]) if t is not None else None
+                if off is None:
+                    return None
+                cu = di.get_CU_containing(off) if op[2] else di.get_CU_at(off)
+                return [cu_canon(cu), die_obs(cu.get_top_DIE())]
+        else:
+            raise RuntimeError('bad op %r' % (op,))
+        answers.append(run_impl(f))
+    return {'aranges': {'ok': None}, 'answers': answers, 'offsets': list(di._cu_offsets_map)}
+
+
+def gen_die_names(rng, layout):
+    """name sets whose entries (mostly) name entries of the forest: info_off = a unit start, die_ofs = entry offset - unit start"""
+    sets = []
+    used = []
+    for _ in range(rng.choice([1, 1, 2, 3])):
+        r = rng.random()
+        if r < 0.9:
+            uoff, offs, dieoff, size = rng.choice(layout)
+        else:
+            uoff, offs, dieoff, size = rng.randrange(0, layout[-1][0] + layout[-1][3] + 2), [], 0, 0
+        ents = []
+        for _ in range(rng.choice([0, 1, 2, 3, 5])):
+            r = rng.random()
+            if used and r < 0.3:
+                nm = rng.choice(used)                      # repeated name: the last occurrence wins
+            elif r < 0.8:
+                nm = rng.choice(NAMES)
+            else:
+                nm = bytes(rng.randrange(1, 128) for _ in range(rng.randrange(1, 6)))
+            r = rng.random()
+            if offs and r < 0.9:
+                do = rng.choice(offs) - uoff
+            elif offs and r < 0.95:
+                do = rng.choice(offs) - uoff + 1           # inside an entry
+            else:
+                do = max(1, rnd_uint(rng, 8))
+            used.append(nm)
+            ents.append([do, hx(nm)])
+        sets.append({'version': 2, 'info_off': uoff, 'info_len': size, 'entries': ents})
+    return sets
+
+
+def gen_die_ops(rng, layout, total, name_sets, ar_sets):
+    ops = []
+    entries = [(l[0], o) for l in layout for o in l[1]]
+    pick = entries if len(entries) <= 24 else rng.sample(entries, 24)
+    for uoff, o in pick:
+        ops.append(['r', o])
+    for uoff, o in rng.sample(entries, min(6, len(entries))):
+        ops.append(['L', uoff, o])
+    for l in layout:
+        ops.append(['L', l[0], l[2]])                       # the top entry through a lut entry
+        ops.append(['r', l[2]])                             # ... and by reference
+    extra = [['r', rng.choice(entries)[1] + 1], ['r', rng.choice(layout)[0]], ['r', rng.choice(layout)[2] - 1], ['r', -1], ['r', total],
+             ['r', total + 5], ['r', total - 1], ['r', rng.randrange(0, total)],
+             ['L', rng.choice(layout)[0], rng.choice(entries)[1]], ['L', rng.choice(layout)[0], total + 3]]
+    if rng.random() < 0.08:
+        extra.append(['L', rng.choice(entries)[1], rng.choice(entries)[1]])   # get_CU_at at a non-start: poisons the cache
+    ops += rng.sample(extra, rng.choice([2, 4, 6]))
+    names = sorted({e[1] for s in name_sets for e in s['entries']})
+    for nm in names:
+        ops.append(['n', nm])
+    ops.append(['n', hx(b'\x01no such name')])
+    addrs = [a for a in addrs_for(rng, ar_sets) if a < (1 << 33)]
+    rng.shuffle(addrs)
+    for a in addrs[:10]:
+        ops.append(['t', a, rng.random() < 0.5])
+    for l in layout:
+        r = rng.random()
+        if r < 0.4:
+            ops.append(['a', l[0]])
+        elif r < 0.8:
+            ops.append(['c', l[0] + rng.randrange(l[3])])
+    rng.shuffle(ops)
+    return ops
+
+
+def die_case(ctx, rng):
+    from props import c04 as H4
+    le, dasz, tables, units, tus, w = H4.gen_case(rng, True)
+    rq = dict(H4.request(le, dasz, tables, units, [], w), p='C13', k='die', probe=True)
+    rq.pop('tus', None)
+    r0 = ctx.driver.ask(rq)
+    if 'fatal' in r0 or 'layout' not in r0:
+        raise RuntimeError('driver: %r on %r' % (r0, str(rq)[:300]))
+    layout = r0['layout']
+    # second pass of C04's generator: sibling attributes and references from the layout (operand widths are fixed before)
+    H4.patch(rng, {'info': [[l[0], l[1]] for l in layout], 'types': []}, units, [])
+    rq = dict(H4.request(le, dasz, tables, units, [], w), p='C13', k='die')
+    rq.pop('tus', None)
+    total = len(r0['info']) // 2
+    starts = [[l[0], l[3], l[2]] for l in layout]
+    rq['names'] = gen_die_names(rng, layout)
+    rq['which'] = rng.choice(['pubnames', 'pubtypes'])
+    rq['sets'] = gen_res_sets(rng, starts, total, 'normal')
+    rq['ops'] = gen_die_ops(rng, layout, total, rq['names'], rq['sets'])
+    return rq
+
+
+def eval_die(rq, r):
+    """(impl, first property difference or None, compared?)"""
+    info, abbrev = bytes.fromhex(r['info']), bytes.fromhex(r['abbrev'])
+    names = None if r['names_bytes'] is None else bytes.fromhex(r['names_bytes'])
+    ar = None if r['ar_bytes'] is None else bytes.fromhex(r['ar_bytes'])
+    impl = impl_die(rq['le'], rq['dasz'], info, abbrev, rq['secs'], names, rq['which'], ar, rq['ops'])
+    bad = None
+    judged = []
+    if r['wf'] and not r['poisoned'] and 'answers' in impl:
+        for j, (op, e, g) in enumerate(zip(rq['ops'], r['expect'], impl['answers'])):
+            ok_tables = r['wf_names'] if op[0] == 'n' else r['wf_ar'] if op[0] == 't' else True
+            if e is None or not ok_tables:
+                judged.append(None)
+                continue
+            judged.append(op[0])
+            if e != g and bad is None:
+                bad = (j, op, e, g)
+    return impl, bad, judged
+
+
+def run_die(ctx):
+    rng = ctx.rng('die')
+    n = ctx.budget(90, 2500)
+    for ci in range(n):
+        rq = die_case(ctx, rng)
+        r = ctx.driver.ask(rq)
+        if 'fatal' in r:
+            raise RuntimeError('driver: %s on %r' % (r['fatal'], str(rq)[:300]))
+        impl, bad, judged = eval_die(rq, r)
+        ctx.out.case(rq)
+        out = ctx.out
+        out.count('die:units=%d' % len(rq['units']))
+        out.count('die:' + ('wf' if r['wf'] else 'forest-not-wf-model-only'))
+        if r['poisoned']:
+            out.count('die:get_CU_at-of-non-start-poisons-cache-model-only')
+        for op, j in zip(rq['ops'], judged):
+            out.count('die:op %s %s' % (op[0], 'judged' if j else 'outside-quantifier'))
+        model = r['model']
+        if 'answers' in model:
+            for op, a in zip(rq['ops'], model['answers']):
+                out.count('die:answer %s %s' % (op[0], 'nothing' if a.get('ok', 0) is None else 'ok' if 'ok' in a else a['err']))
+            # ref_addr_scan_agrees: C13's model of get_DIE_from_refaddr against C04's linear scan, every reference
+            refs = [a for op, a in zip(rq['ops'], model['answers']) if op[0] == 'r']
+            for a, sc in zip(refs, r['scan']):
+                a2 = {'ok': [a['ok'][0][0], a['ok'][1]]} if 'ok' in a else a
+                if a2 != sc:
+                    if r['wf'] and not r['poisoned']:
+                        raise RuntimeError('C13 die: the model and the linear scan disagree on a well-formed forest (ref_addr_scan_agrees): %r vs %r' % (a2, sc))
+                    out.count('die:scan-differs(not-wf-or-poisoned)')
+                else:
+                    out.count('die:scan-agrees')
+        if bad is not None:
+            out.violation('property', 'die', rq, first_bad=bad, model=model.get('answers', [None] * (bad[0] + 1))[bad[0]])
+            continue
+        if impl != model:
+            diff = None
+            if 'answers' in impl and 'answers' in model:
+                diff = [(i, o, g, m) for i, (o, g, m) in enumerate(zip(rq['ops'], impl['answers'], model['answers'])) if g != m][:2]
+            out.violation('correspondence', 'die', rq, got=diff or impl, model=None if diff else model)
+        if ctx.time_left() < 25:
+            out.notes.append('die: stopped after %d of %d cases (time budget)' % (ci + 1, n))
+            break
+
+
 def run(ctx):
     run_ar(ctx)
     run_ar_raw(ctx)
@@ -761,6 +1003,7 @@ def run(ctx):
     run_nm_raw(ctx)
     run_cu_raw(ctx)
     run_res(ctx)
+    run_die(ctx)
     run_cu(ctx)
 
 
@@ -792,6 +1035,10 @@ def replay(ctx, payload):
         r = ctx.driver.ask(case)
         impl = impl_names(case['le'], case['dasz'], None if case['hex'] is None else bytes.fromhex(case['hex']), case['which'])
         res.update(impl=impl, model=r['model'], fails=impl != r['model'])
+    elif stream == 'die':
+        r = ctx.driver.ask(case)
+        impl, bad, _ = eval_die(case, r)
+        res.update(impl=impl, expect=r['expect'], model=r['model'], first_bad=bad, fails=bad is not None or impl != r['model'])
     elif stream == 'res':
         rq = case['req']
         r = ctx.driver.ask(rq)
